@@ -12,7 +12,7 @@ use vh::{run_main, Ctx, Local};
 
 fn pool() -> Vec<String> {
     let mut v = vec![];
-    let spec: [(&str, &[&str]); 7] = [
+    let spec: [(&str, &[&str]); 9] = [
         ("a", &["", ":5", ":10", ":-1", ":x", ":"]),
         ("b", &["", ":5", ":10"]),
         ("a-alias", &["", ":10"]),
@@ -20,6 +20,9 @@ fn pool() -> Vec<String> {
         ("perm", &["", ":10"]),
         ("fn", &["", ":10"]),
         ("tpl", &["", ":10"]),
+        // names that contain the priority separator: loaded (`ns:a`) and not loaded (`zzz:1`)
+        ("ns:a", &["", ":7"]),
+        ("zzz:1", &[":9"]),
     ];
     for opt in ["redirect", "redirect-rule"] {
         for (res, sufs) in spec.iter() {
